@@ -14,7 +14,6 @@ Variable sB : state.
 Hypothesis Hrk : forall n e d, alookup p n = Some e -> In d (expr_reads e) -> (rk d < rk n)%nat.
 Hypothesis Hproj : forall n e d, alookup p n = Some e -> nkind n = KProjection -> In d (expr_reads e) ->
   is_fw_or_proj (nkind d) = true.
-Hypothesis Hng : forall n e, alookup p n = Some e -> no_group e = true.
 Hypothesis Htgt : forall n e d, alookup p n = Some e -> In d (expr_reads e) -> nkind d <> KExternal.
 Hypothesis Hkeys : forall n e, alookup p n = Some e -> is_mexec_kind (nkind n) = true.
 
@@ -63,16 +62,13 @@ Proof.
     (left; split; [inversion H; reflexivity|]; intros [j (A & B & C)]; try discriminate; destruct A; discriminate).
 Qed.
 
-Lemma no_group_sub_top : forall e, no_group e = true -> no_group_top e = true.
-Proof. intros e H. destruct e; try reflexivity. discriminate. Qed.
-
 (** ** the executor *)
 Lemma msound_eval_step : forall f, msound_query p rk sB f -> msound_eval p rk sB f -> msound_eval p rk sB (S f).
 Proof.
   intros f IHq IHe.
-  destruct (mmono_all p Hng f) as (Mq & Mx & Me & Mr & Mb).
+  destruct (mmono_all p f) as (Mq & Mx & Me & Mr & Mb).
   assert (Hbin : forall inp X stk n pd prev a b op fr s o fr' ms s',
-            MInv p rk sB X inp s -> no_group a = true -> no_group b = true ->
+            MInv p rk sB X inp s ->
             (forall d, In d (expr_reads a ++ expr_reads b) -> StkOk rk stk d /\ (rk d < rk n)%nat /\ nkind d <> KExternal) ->
             MFrOk rk s n fr -> (pd = true \/ MPrevOK s prev) -> (pd = true \/ X = []) ->
             mbin p f stk (CQuery n true pd prev) a b op fr s = Ok (o, fr', ms, s') ->
@@ -80,15 +76,15 @@ Proof.
             (forall d x, frR fr d x -> frR fr' d x) /\
             exists x y l1 l2, o = EVal (op x y) /\ evr (frR fr') a x l1 /\ evr (frR fr') b y l2 /\
               (forall d, In d (map fst (fr_callees fr')) <-> In d (map fst (fr_callees fr)) \/ In d (l1 ++ l2))).
-  { intros inp X stk n pd prev a b op fr s o fr' ms s' HI Ga Gb Hstk Hfr Hpd Hpx H. unfold mbin in H.
+  { intros inp X stk n pd prev a b op fr s o fr' ms s' HI Hstk Hfr Hpd Hpx H. unfold mbin in H.
     destruct (meval f stk (CQuery n true pd prev) a fr s) as [[[[x fr1] m1] s1]| | |] eqn:E1; try discriminate.
-    destruct (IHe inp X _ _ _ _ _ _ _ _ _ _ _ HI Ga (fun d Hd => Hstk d (in_or_app _ _ _ (or_introl Hd))) Hfr Hpd Hpx E1)
+    destruct (IHe inp X _ _ _ _ _ _ _ _ _ _ _ HI (fun d Hd => Hstk d (in_or_app _ _ _ (or_introl Hd))) Hfr Hpd Hpx E1)
       as (HI1 & K1 & -> & Hfr1 & Hsub1 & xv & l1 & -> & Hev1 & Hk1).
-    pose proof (Me _ _ _ _ _ _ _ _ _ Ga E1) as M1.
+    pose proof (Me _ _ _ _ _ _ _ _ _ E1) as M1.
     assert (Hpd1 : pd = true \/ MPrevOK s1 prev).
     { destruct Hpd as [Hpd|Hpd]; [left; exact Hpd|right; eapply MPrevOK_mono; eauto]. }
     destruct (meval f stk (CQuery n true pd prev) b fr1 s1) as [[[[y fr2] m2] s2]| | |] eqn:E2; try discriminate.
-    destruct (IHe inp X _ _ _ _ _ _ _ _ _ _ _ HI1 Gb (fun d Hd => Hstk d (in_or_app _ _ _ (or_intror Hd))) Hfr1 Hpd1 Hpx E2)
+    destruct (IHe inp X _ _ _ _ _ _ _ _ _ _ _ HI1 (fun d Hd => Hstk d (in_or_app _ _ _ (or_intror Hd))) Hfr1 Hpd1 Hpx E2)
       as (HI2 & K2 & -> & Hfr2 & Hsub2 & yv & l2 & -> & Hev2 & Hk2).
     injection H as <- <- <- <-. split; [exact HI2|].
     split; [eapply MKeeps_trans; [exact HI|exact M1|exact K1|exact K2]|]. split; [reflexivity|].
@@ -96,63 +92,92 @@ Proof.
     exists xv, yv, l1, l2. split; [reflexivity|]. split; [|split; [exact Hev2|]].
     - eapply evr_mono; [exact Hev1|]. intros d x0 _ Hx0. apply Hsub2. exact Hx0.
     - intro d. rewrite Hk2, Hk1, in_app_iff. tauto. }
-  red. intros inp X stk n pd prev e fr s o fr' ms s' HI Hg Hstk Hfr Hpd Hpx H.
-  rewrite (eval_S p f _ _ e fr s (no_group_sub_top e Hg)) in H. destruct e; cbn [no_group] in Hg.
-  - injection H as <- <- <- <-. split; [exact HI|]. split; [apply MKeeps_refl|]. split; [reflexivity|].
-    split; [exact Hfr|]. split; [auto|]. exists z, []. split; [reflexivity|]. split; [constructor|].
-    intro d. cbn [In]. tauto.
-  - unfold mread in H.
-    destruct (mquery f stk (CQuery n true pd prev) (Some fr) n0 s) as [[[[o1 fr1] m1] s1]| | |] eqn:E1; try discriminate.
-    destruct (Hstk n0 (or_introl eq_refl)) as (Hs0 & Hr0 & Hk0).
+  assert (Hread : forall inp X stk n pd prev n0 fr s x fr1 m1 s1,
+            MInv p rk sB X inp s -> StkOk rk stk n0 -> (rk n0 < rk n)%nat -> nkind n0 <> KExternal ->
+            MFrOk rk s n fr -> (pd = true \/ MPrevOK s prev) -> (pd = true \/ X = []) ->
+            mread p f stk (CQuery n true pd prev) n0 fr s = Ok (x, fr1, m1, s1) ->
+            MInv p rk sB X inp s1 /\ MKeeps s s1 /\ m1 = [] /\ MonoR stk s s1 /\
+            exists i, x = EVal (i_value i) /\ fr1 = fr_obs_reg fr n0 i /\ MFrOk rk s1 n fr1 /\
+              (forall d y, frR fr d y -> frR fr1 d y) /\ frR fr1 n0 (i_value i)).
+  { intros inp X stk n pd prev n0 fr s x fr1 m1 s1 HI Hs0 Hr0 Hk0 Hfr Hpd Hpx H. unfold mread in H.
+    destruct (mquery f stk (CQuery n true pd prev) (Some fr) n0 s) as [[[[o1 fr2] m2] s2]| | |] eqn:E1; try discriminate.
     assert (Hpre : MFrPre rk (CQuery n true pd prev) (Some fr) n0 s).
     { split; [exact Hr0|]. exists fr. auto. }
     assert (HIa : MInv p rk sB (X ++ []) inp s) by (rewrite app_nil_r; exact HI).
-    destruct (IHq inp X [] stk (CQuery n true pd prev) (Some fr) n0 s o1 fr1 m1 s1 HIa Hs0 (fun K => ltac:(discriminate K))
+    destruct (IHq inp X [] stk (CQuery n true pd prev) (Some fr) n0 s o1 fr2 m2 s2 HIa Hs0 (fun K => ltac:(discriminate K))
                 Hk0 Hpd Hpre Hpx (or_introl eq_refl) E1) as (HI1 & K1 & -> & i & Hi & Hv & Ho & Hf).
     specialize (K1 eq_refl).
     pose proof (Mq _ _ _ _ _ _ _ _ _ E1) as M1.
-    specialize (Hf fr (or_introl eq_refl)). subst o1 fr1. cbv zeta in H.
-    injection H as <- <- <- <-. split; [exact HI1|]. split; [exact K1|]. split; [reflexivity|].
-    assert (Hfr1 : MFrOk rk s1 n fr) by (eapply MFrOk_mono; eauto).
-    split; [|split].
-    + apply MFrOk_obs_reg; auto. intros F HF. split; [eapply mi_tfc_rk; eauto|eapply mi_tfc_fw; eauto].
-    + intros d x Hdx. eapply mfrR_obs_reg; eauto.
-    + exists (i_value i), [n0]. split; [reflexivity|]. split.
-      * constructor. exists (i_tfc i). rewrite fr_obs_reg_lookup, node_eqb_refl. reflexivity.
-      * intro d. rewrite (fr_obs_reg_keys_In rk). cbn [In]. intuition.
-  - apply andb_true_iff in Hg. destruct Hg as [Ga Gb].
-    destruct (Hbin _ _ _ _ _ _ _ _ _ _ _ _ _ _ _ HI Ga Gb Hstk Hfr Hpd Hpx H) as (A & B & C & D & E & x & y & l1 & l2 & -> & G1 & G2 & G3).
+    specialize (Hf fr (or_introl eq_refl)). subst o1 fr2. cbv zeta in H.
+    injection H as <- <- <- <-. split; [exact HI1|]. split; [exact K1|]. split; [reflexivity|]. split; [exact M1|].
+    assert (Hfr1 : MFrOk rk s2 n fr) by (eapply MFrOk_mono; eauto).
+    exists i. split; [reflexivity|]. split; [reflexivity|]. split; [|split].
+    - apply MFrOk_obs_reg; auto. intros F HF. split; [eapply mi_tfc_rk; eauto|eapply mi_tfc_fw; eauto].
+    - intros d y Hdy. eapply mfrR_obs_reg; eauto.
+    - exists (i_tfc i). rewrite fr_obs_reg_lookup, node_eqb_refl. reflexivity. }
+  assert (Hgrp : forall inp X stk n pd prev ns acc fr s x fr1 m1 s1,
+            MInv p rk sB X inp s ->
+            (forall d, In d ns -> StkOk rk stk d /\ (rk d < rk n)%nat /\ nkind d <> KExternal) ->
+            MFrOk rk s n fr -> (pd = true \/ MPrevOK s prev) -> (pd = true \/ X = []) ->
+            mgroup p f stk (CQuery n true pd prev) ns acc fr [] s = Ok (x, fr1, m1, s1) ->
+            MInv p rk sB X inp s1 /\ MKeeps s s1 /\ m1 = [] /\ MFrOk rk s1 n fr1 /\
+            (forall d y, frR fr d y -> frR fr1 d y) /\
+            exists w l, x = EVal (acc + w) /\ evr (frR fr1) (EGroup ns) w l /\
+              (forall d, In d (map fst (fr_callees fr1)) <-> In d (map fst (fr_callees fr)) \/ In d l)).
+  { intros inp X stk n pd prev. induction ns as [|n0 r IHn]; intros acc fr s x fr1 m1 s1 HI Hstk Hfr Hpd Hpx H; cbn [mgroup] in H.
+    - injection H as <- <- <- <-. split; [exact HI|]. split; [apply MKeeps_refl|]. split; [reflexivity|]. split; [exact Hfr|].
+      split; [auto|]. exists 0, []. split; [f_equal; lia|]. split; [constructor|]. intro d. cbn [In]. tauto.
+    - destruct (mread p f stk (CQuery n true pd prev) n0 fr s) as [[[[x0 fr2] m2] s2]| | |] eqn:E1; try discriminate.
+      destruct (Hstk n0 (or_introl eq_refl)) as (Hs0 & Hr0 & Hk0).
+      destruct (Hread _ _ _ _ _ _ _ _ _ _ _ _ _ HI Hs0 Hr0 Hk0 Hfr Hpd Hpx E1) as (HI1 & K1 & -> & M1 & i & -> & -> & Hfr2 & Hsub1 & Hn0).
+      cbn [app] in H.
+      assert (Hpd1 : pd = true \/ MPrevOK s2 prev).
+      { destruct Hpd as [Hpd|Hpd]; [left; exact Hpd|right; eapply MPrevOK_mono; eauto]. }
+      destruct (IHn _ _ _ _ _ _ _ HI1 (fun d Hd => Hstk d (or_intror Hd)) Hfr2 Hpd1 Hpx H)
+        as (HI2 & K2 & -> & Hfr3 & Hsub2 & w & l & -> & Hev & Hk).
+      split; [exact HI2|]. split; [eapply MKeeps_trans; [exact HI|exact M1|exact K1|exact K2]|]. split; [reflexivity|].
+      split; [exact Hfr3|]. split; [auto|].
+      exists (i_value i + w), (n0 :: l). split; [f_equal; lia|]. split.
+      + constructor; [apply Hsub2; exact Hn0|exact Hev].
+      + intro d. rewrite Hk, (fr_obs_reg_keys_In rk). cbn [In]. intuition. }
+  red. intros inp X stk n pd prev e fr s o fr' ms s' HI Hstk Hfr Hpd Hpx H.
+  rewrite (eval_S p f _ _ e fr s) in H. destruct e.
+  - injection H as <- <- <- <-. split; [exact HI|]. split; [apply MKeeps_refl|]. split; [reflexivity|].
+    split; [exact Hfr|]. split; [auto|]. exists z, []. split; [reflexivity|]. split; [constructor|].
+    intro d. cbn [In]. tauto.
+  - destruct (Hstk n0 (or_introl eq_refl)) as (Hs0 & Hr0 & Hk0).
+    destruct (Hread _ _ _ _ _ _ _ _ _ _ _ _ _ HI Hs0 Hr0 Hk0 Hfr Hpd Hpx H) as (HI1 & K1 & -> & M1 & i & -> & -> & Hfr2 & Hsub1 & Hn0).
+    split; [exact HI1|]. split; [exact K1|]. split; [reflexivity|]. split; [exact Hfr2|]. split; [exact Hsub1|].
+    exists (i_value i), [n0]. split; [reflexivity|]. split; [constructor; exact Hn0|].
+    intro d. rewrite (fr_obs_reg_keys_In rk). cbn [In]. intuition.
+  - destruct (Hbin _ _ _ _ _ _ _ _ _ _ _ _ _ _ _ HI Hstk Hfr Hpd Hpx H) as (A & B & C & D & E & x & y & l1 & l2 & -> & G1 & G2 & G3).
     split; [exact A|]. split; [exact B|]. split; [exact C|]. split; [exact D|]. split; [exact E|].
     eexists. exists (l1 ++ l2). split; [reflexivity|]. split; [constructor; assumption|exact G3].
-  - apply andb_true_iff in Hg. destruct Hg as [Ga Gb].
-    destruct (Hbin _ _ _ _ _ _ _ _ _ _ _ _ _ _ _ HI Ga Gb Hstk Hfr Hpd Hpx H) as (A & B & C & D & E & x & y & l1 & l2 & -> & G1 & G2 & G3).
+  - destruct (Hbin _ _ _ _ _ _ _ _ _ _ _ _ _ _ _ HI Hstk Hfr Hpd Hpx H) as (A & B & C & D & E & x & y & l1 & l2 & -> & G1 & G2 & G3).
     split; [exact A|]. split; [exact B|]. split; [exact C|]. split; [exact D|]. split; [exact E|].
     eexists. exists (l1 ++ l2). split; [reflexivity|]. split; [constructor; assumption|exact G3].
   - cbn [expr_reads] in Hstk.
     destruct (meval f stk (CQuery n true pd prev) e fr s) as [[[[x fr1] m1] s1]| | |] eqn:E1; try discriminate.
-    destruct (IHe inp X _ _ _ _ _ _ _ _ _ _ _ HI Hg Hstk Hfr Hpd Hpx E1) as (HI1 & K1 & -> & Hfr1 & Hsub1 & xv & l1 & -> & Hev1 & Hk1).
+    destruct (IHe inp X _ _ _ _ _ _ _ _ _ _ _ HI Hstk Hfr Hpd Hpx E1) as (HI1 & K1 & -> & Hfr1 & Hsub1 & xv & l1 & -> & Hev1 & Hk1).
     injection H as <- <- <- <-. split; [exact HI1|]. split; [exact K1|]. split; [reflexivity|].
     split; [exact Hfr1|]. split; [exact Hsub1|].
     eexists. exists l1. split; [reflexivity|]. split; [constructor; exact Hev1|exact Hk1].
-  - apply andb_true_iff in Hg. destruct Hg as [Ga Gb].
-    destruct (Hbin _ _ _ _ _ _ _ _ _ _ _ _ _ _ _ HI Ga Gb Hstk Hfr Hpd Hpx H) as (A & B & C & D & E & x & y & l1 & l2 & -> & G1 & G2 & G3).
+  - destruct (Hbin _ _ _ _ _ _ _ _ _ _ _ _ _ _ _ HI Hstk Hfr Hpd Hpx H) as (A & B & C & D & E & x & y & l1 & l2 & -> & G1 & G2 & G3).
     split; [exact A|]. split; [exact B|]. split; [exact C|]. split; [exact D|]. split; [exact E|].
     eexists. exists (l1 ++ l2). split; [reflexivity|]. split; [constructor; assumption|exact G3].
   - cbn [expr_reads] in Hstk.
-    apply andb_true_iff in Hg. destruct Hg as [Hg G3]. apply andb_true_iff in Hg. destruct Hg as [G1 G2].
     destruct (meval f stk (CQuery n true pd prev) e1 fr s) as [[[[x fr1] m1] s1]| | |] eqn:E1; try discriminate.
-    destruct (IHe inp X _ _ _ _ _ _ _ _ _ _ _ HI G1 (fun d Hd => Hstk d (in_or_app _ _ _ (or_introl Hd))) Hfr Hpd Hpx E1)
+    destruct (IHe inp X _ _ _ _ _ _ _ _ _ _ _ HI (fun d Hd => Hstk d (in_or_app _ _ _ (or_introl Hd))) Hfr Hpd Hpx E1)
       as (HI1 & K1 & -> & Hfr1 & Hsub1 & xv & l1 & -> & Hev1 & Hk1).
-    pose proof (Me _ _ _ _ _ _ _ _ _ G1 E1) as M1.
+    pose proof (Me _ _ _ _ _ _ _ _ _ E1) as M1.
     assert (Hpd1 : pd = true \/ MPrevOK s1 prev).
     { destruct Hpd as [Hpd|Hpd]; [left; exact Hpd|right; eapply MPrevOK_mono; eauto]. }
     assert (Hstk2 : forall d, In d (expr_reads (if xv =? 0 then e3 else e2)) ->
               StkOk rk stk d /\ (rk d < rk n)%nat /\ nkind d <> KExternal).
     { intros d Hd. apply Hstk. apply in_or_app. right. apply in_or_app. destruct (xv =? 0); auto. }
-    assert (Hg2 : no_group (if xv =? 0 then e3 else e2) = true) by (destruct (xv =? 0); assumption).
     destruct (meval f stk (CQuery n true pd prev) (if xv =? 0 then e3 else e2) fr1 s1)
       as [[[[y fr2] m2] s2]| | |] eqn:E2; try discriminate.
-    destruct (IHe inp X _ _ _ _ _ _ _ _ _ _ _ HI1 Hg2 Hstk2 Hfr1 Hpd1 Hpx E2)
+    destruct (IHe inp X _ _ _ _ _ _ _ _ _ _ _ HI1 Hstk2 Hfr1 Hpd1 Hpx E2)
       as (HI2 & K2 & -> & Hfr2 & Hsub2 & v & l2 & -> & Hev2 & Hk2).
     injection H as <- <- <- <-. split; [exact HI2|].
     split; [eapply MKeeps_trans; [exact HI|exact M1|exact K1|exact K2]|]. split; [reflexivity|].
@@ -161,21 +186,27 @@ Proof.
     + econstructor; [|exact Hev2].
       eapply evr_mono; [exact Hev1|]. intros d x0 _ Hx0. apply Hsub2. exact Hx0.
     + intro d. rewrite Hk2, Hk1, in_app_iff. tauto.
-  - discriminate.
+  - cbn [expr_reads] in Hstk.
+    destruct (mgroup p f stk (CQuery n true pd prev) ns 0 (fr_set_unordered fr true) [] s) as [[[[x fr1] m1] s1]| | |] eqn:E1; try discriminate.
+    destruct (Hgrp _ _ _ _ _ _ _ _ _ _ _ _ _ _ HI Hstk (MFrOk_set_true rk _ _ _ Hfr) Hpd Hpx E1)
+      as (HI1 & K1 & -> & Hfr1 & Hsub & w & l & -> & Hev & Hk).
+    injection H as <- <- <- <-. split; [exact HI1|]. split; [exact K1|]. split; [reflexivity|].
+    split; [apply MFrOk_set_false; exact Hfr1|]. split; [exact Hsub|].
+    exists w, l. split; [reflexivity|]. split; [exact Hev|exact Hk].
 Qed.
 
 (** ** repair *)
 Lemma msound_repair_step : forall f, msound_query p rk sB f -> msound_execute p rk sB f -> msound_repair p rk sB (S f).
 Proof.
   intros f IHq IHx.
-  destruct (mmono_all p Hng f) as (Mq & Mx & Me & Mr & Mb).
+  destruct (mmono_all p f) as (Mq & Mx & Me & Mr & Mb).
   red. intros inp X stk c n s ms s' HI Hstk Hroot Hnv Hnp H. rewrite repair_S in H.
   destruct (get_info s n) as [i|] eqn:Eg; [|discriminate]. cbv zeta in H.
   destruct (mwalk p f n stk (x_pedantic c) i (all_callees (i_fwd i)) false [] empty_frame [] s)
     as [[[[d fr1] marks] s1]| | |] eqn:Ew; try discriminate.
   assert (HW0 : MWalkInv s i (all_callees (i_fwd i)) false []).
   { split; [intros x []| |discriminate]. intros x Hx Hn. contradiction. }
-  destruct (msound_walk p rk sB Hrk Hng f inp X n stk (x_pedantic c) i IHq Hstk (all_callees (i_fwd i)) false [] empty_frame [] s d fr1 marks s1
+  destruct (msound_walk p rk sB Hrk f inp X n stk (x_pedantic c) i IHq Hstk (all_callees (i_fwd i)) false [] empty_frame [] s d fr1 marks s1
               HI Eg Hnv Hnp (fun x Hx => Hx) eq_refl eq_refl eq_refl HW0 Ew)
     as (HI1 & K1 & -> & Hscc & Htfc & Hd).
   pose proof (mmono_walk p f n stk _ i Mq _ _ _ _ _ _ _ _ _ _ Ew) as M1.
@@ -252,7 +283,7 @@ Proof.
   destruct (mbp p f [] (proj_callers s n) s) as [s1| | |] eqn:Eb; try discriminate. inversion H. subst s'. clear H.
   assert (Hk : forall q, In q (proj_callers s n) -> nkind q = KProjection).
   { intros q Hq. unfold proj_callers in Hq. apply filter_In in Hq. apply kind_eqb_eq. apply Hq. }
-  destruct (msound_bp p rk sB Hng f inp (X ++ Y) IHq _ _ _ HI Hk Eb) as (HI1 & M1 & V1).
+  destruct (msound_bp p rk sB f inp (X ++ Y) IHq _ _ _ HI Hk Eb) as (HI1 & M1 & V1).
   assert (HI2 : MInv p rk sB X inp s1) by (eapply MInv_close; [exact HI1|]; intros y Hy; apply V1; apply HY; exact Hy).
   assert (Hv1 : sverified s1 n) by (eapply sverified_mono; eauto).
   destruct Hv1 as [i [Hi Hvi]]. unfold clear_pending. rewrite Hi.
@@ -338,7 +369,7 @@ Qed.
 
 Lemma msound_execute_step : forall f, msound_eval p rk sB f -> msound_execute p rk sB (S f).
 Proof.
-  intros f IHe. destruct (mmono_all p Hng f) as (Mq & Mx & Me & Mr & Mb).
+  intros f IHe. destruct (mmono_all p f) as (Mq & Mx & Me & Mr & Mb).
   red. intros inp X stk c n rc fr0 s ms s' HI Hstk Hroot Hkx Hfr0 Hnv Hpx Hrc H.
   rewrite execute_S in H. cbv zeta in H.
   match type of H with context [match ?X with Ok _ => _ | OutOfFuel => OutOfFuel | Panic c => Panic c | Stuck => Stuck end] =>
@@ -349,7 +380,7 @@ Proof.
   { unfold body in Ee. destruct (nkind n); try discriminate; try contradiction;
       (destruct (alookup p n) as [e|]; [|discriminate]); exists e; auto. }
   destruct Hb as [e (He & Hev0)]. clear Ee.
-  pose proof (Hkeys n e He) as Hk. pose proof (Hng n e He) as Hge.
+  pose proof (Hkeys n e He) as Hk.
   assert (HJn : JustAt p sB inp n).
   { destruct (mi_U _ _ _ _ _ _ _ HI n) as [K|K]; [contradiction|].
     destruct Hrc as [(_ & (cal & i & ci & v & t & A & B & C & D & Sc & E) & _)|[_ Hn]].
@@ -366,6 +397,7 @@ Proof.
   destruct Hfr0 as (F1 & F2 & F3 & F4 & F5).
   assert (Hfr : MFrOk rk s0 n fr0).
   { split; auto.
+    - intro K. rewrite F5 in K. discriminate.
     - rewrite F1, F2. reflexivity.
     - intros x o Hx. rewrite F1 in Hx. destruct Hx.
     - intros d Hd. rewrite F1 in Hd. destruct Hd.
@@ -383,11 +415,11 @@ Proof.
         * intros K F HF. apply (HT i Hi). apply T2; assumption.
       + unfold fx_prev in Hd. rewrite Hi in Hd. discriminate.
     - right. intros d t Hd. unfold fx_prev in Hd. rewrite Hn in Hd. discriminate. }
-  destruct (IHe inp X (n :: stk) n (x_pedantic c) (fx_prev s n) e fr0 s0 out fr1 marks s1 HI0 Hge Hreads Hfr Hpd Hpx Hev0)
+  destruct (IHe inp X (n :: stk) n (x_pedantic c) (fx_prev s n) e fr0 s0 out fr1 marks s1 HI0 Hreads Hfr Hpd Hpx Hev0)
     as (HI1 & K01 & -> & Hfr1 & _ & z & l & -> & Hev & Hkl0).
   assert (Hkl : forall d, In d (map fst (fr_callees fr1)) <-> In d l).
   { intro d. rewrite Hkl0, F1. cbn [map In]. tauto. }
-  pose proof (Me _ _ _ _ _ _ _ _ _ Hge Hev0) as M01.
+  pose proof (Me _ _ _ _ _ _ _ _ _ Hev0) as M01.
   cbn [nmem existsb] in H.
   assert (Ev : fx_value n (EVal z) fr1 = z) by (unfold fx_value; rewrite (mo_scc _ _ _ _ Hfr1); reflexivity).
   rewrite Ev in H. clear Ev.
@@ -514,7 +546,7 @@ Lemma msound_query_step : forall f,
   msound_query p rk sB f -> msound_execute p rk sB f -> msound_repair p rk sB f -> msound_backward p rk sB f ->
   msound_query p rk sB (S f).
 Proof.
-  intros f IHq IHx IHr IHb. destruct (mmono_all p Hng f) as (Mq & Mx & Me & Mr & Mb).
+  intros f IHq IHx IHr IHb. destruct (mmono_all p f) as (Mq & Mx & Me & Mr & Mb).
   red. intros inp X Y stk c fr n s o fr' ms s' HI Hstk Hroot Hkx Hnp Hpre Hxm HY H.
   rewrite query_for_S in H. cbv zeta in H.
   rewrite mq_reg_caller in H.
@@ -568,7 +600,7 @@ Proof.
       { destruct HY as [K|(_ & K & _)]; [exact K|]. exfalso. destruct Hsp as [j (J1 & J2)]. destruct K as [j' [K1 K2]].
         assert (j' = j) by congruence. subst. contradiction. }
       subst X Y stk. cbn [app] in *.
-      destruct (msound_tfc p rk sB Hng f inp IHq _ _ _ HI (fun t Ht0 => ltac:(rewrite (mi_tfc_fw _ _ _ _ _ _ _ HI n i t Hi Ht0); discriminate)) Ht)
+      destruct (msound_tfc p rk sB f inp IHq _ _ _ HI (fun t Ht0 => ltac:(rewrite (mi_tfc_fw _ _ _ _ _ _ _ HI n i t Hi Ht0); discriminate)) Ht)
         as (A & C).
       assert (M : MonoR [] s s1) by (eapply mmono_tfc; eauto).
       split; [exact A|]. split.
